@@ -132,6 +132,7 @@ needs_quoting = Contract(
     outcomes=[Outcome("any", "bool", [
         "not (typ is None or typ.startswith('*')) or result == False",
         "typ not in ('str', 'Optional[str]') or result == True",
+        "typ not in ('int', 'float', 'bool', 'complex') or result == False",  # decided by evaluation: props/C02.py NQ-scalars
         "typ is None or result == nq_spec(typ)",
     ])],
 )
